@@ -59,7 +59,9 @@ let flush_script (acc : z list list) : unit =
     List.iter (fun c -> print_line (codec_case c)) cases;
     print_string "#\n"
   | _ ->
-    List.iter print_line (run_script lines);
+    (* ARKMODEL_MODE=inv: evaluate the relation-tier invariant after every step instead of printing the trace *)
+    let inv = (try Sys.getenv "ARKMODEL_MODE" = "inv" with Not_found -> false) in
+    List.iter print_line (if inv then inv_script lines else run_script lines);
     print_string "#\n"
 
 let () =
